@@ -817,6 +817,9 @@ class PSBTView:
             inp.partial_sigs[rootpub] = sig.serialize() + bytes([inp_sighash])
             counter += 1
         for prv, pub in derived_keypairs:
+            # already signed above with the same key, don't count it twice
+            if pub == rootpub and pub in inp.partial_sigs:
+                continue
             sig = prv.sign(h)
             # sig plus sighash flag
             inp.partial_sigs[pub] = sig.serialize() + bytes([inp_sighash])
